@@ -11,7 +11,11 @@ import (
 	"strconv"
 	"strings"
 
+	"github.com/gotd/td/telegram/query/channels/participants"
+	"github.com/gotd/td/telegram/query/contacts/blocked"
 	"github.com/gotd/td/telegram/query/dialogs"
+	"github.com/gotd/td/telegram/query/messages/stickers/featured"
+	"github.com/gotd/td/telegram/query/photos"
 	"github.com/gotd/td/telegram/query/messages"
 	"github.com/gotd/td/tg"
 
@@ -28,7 +32,9 @@ func main() {
 // `m.lastBatch = …` and maps it to the rule code interpreted by TdModel.C39.lbRule.
 func lastBatchRules(f *hc.Facts, dir string, names map[string]string) {
 	codes := map[string]int{"true": 0, "len(msgs.Messages) < m.limit": 1, "len(dlgs.Dialogs) < m.limit": 1,
-		"len(msgs.Messages) == 0": 2, "len(dlgs.Dialogs) == 0": 2}
+		"len(msgs.Messages) == 0": 2, "len(dlgs.Dialogs) == 0": 2,
+		"len(ctcs.Blocked) < m.limit": 1, "len(phts.Photos) < m.limit": 1, "len(stickers) < m.limit": 1,
+		"len(participants) < 1": 2, "len(participants) == 0": 2}
 	found := map[string]bool{}
 	fd := f.FuncDecl(dir, "Iterator.apply")
 	if fd != nil {
@@ -130,6 +136,29 @@ func facts(f *hc.Facts) {
 		f.Bool("sortDescending", false, "messages Iterator.apply SortStable: "+less)
 	default:
 		f.Raw("def sortDescending : Bool := missing_fact_sortDescending -- comparator `" + less + "`")
+	}
+	// offset-based iterators built on a copy of the same skeleton
+	lastBatchRules(f, "telegram/query/contacts/blocked", map[string]string{
+		"*tg.ContactsBlocked": "blockedFull", "*tg.ContactsBlockedSlice": "blockedSlice"})
+	lastBatchRules(f, "telegram/query/photos", map[string]string{
+		"*tg.PhotosPhotos": "photosFull", "*tg.PhotosPhotosSlice": "photosSlice"})
+	lastBatchRules(f, "telegram/query/channels/participants", map[string]string{
+		"*tg.ChannelsChannelParticipants": "participantsRule"})
+	lastBatchRules(f, "telegram/query/messages/stickers/featured", map[string]string{
+		"*tg.MessagesFeaturedStickers": "featuredRule"})
+	offOK := true
+	for dir, v := range map[string]string{"telegram/query/contacts/blocked": "blocked", "telegram/query/photos": "photos",
+		"telegram/query/channels/participants": "participants", "telegram/query/messages/stickers/featured": "stickers"} {
+		src := strings.Join(strings.Fields(f.FuncSrc(dir, "Iterator.apply")+f.FuncSrc(dir, "Iterator.requestNext")+f.FuncSrc(dir, "Iterator.bufNext")), "")
+		if !strings.Contains(src, "m.offset+=len("+v+")") || !strings.Contains(src, "Offset:m.offset,Limit:m.limit,") ||
+			!strings.Contains(src, "iflen(m.buf)-1<=m.bufCur{returnfalse}") {
+			offOK = false
+		}
+	}
+	if offOK {
+		f.Bool("offsetItersAsModelled", true, "offset += len(page); Request{Offset: m.offset, Limit: m.limit}; bufNext stops at the end — in all four")
+	} else {
+		f.Raw("def offsetItersAsModelled : Bool := missing_fact_offsetItersAsModelled -- offset bookkeeping of an offset-based iterator changed")
 	}
 	bufNextFact(f, "bufNextStopsAtEnd", "telegram/query/messages")
 	bufNextFact(f, "dlgBufNextStopsAtEnd", "telegram/query/dialogs")
@@ -706,8 +735,48 @@ func run(c *hc.Ctx) error {
 		}
 		add(line, obs)
 	}
+	// ---- 4. the offset-based iterators built on a copy of the same skeleton
+	for i := 0; i < c.N(1200, 40000); i++ {
+		which := hc.Pick(r, "blocked", "photos", "participants", "featured")
+		n := r.Range(0, 40)
+		limit := r.Range(1, n+1)
+		if r.Chance(30) {
+			limit = r.Range(1, 8)
+			n = limit * r.Range(0, 6)
+		}
+		capv := limit + r.Intn(3)
+		if which == "participants" && r.Chance(40) {
+			capv = r.Range(1, limit) // an empty page ends this iterator: the server may cap pages
+		}
+		kinds := genKinds(r, r.Range(0, n/limit+3))
+		maxCalls := n + 5
+		obs, ys, done, after, nreq, p := iterateOffset(which, n, limit, capv, kinds, maxCalls)
+		line := fmt.Sprintf("off %s %d %d %d %s %d", which, limit, capv, maxCalls, orDash(kinds), n)
+		c.Eval(line, n > limit)
+		c.Count("off." + which)
+		want := make([]int, n)
+		for j := range want {
+			want[j] = j + 1
+		}
+		switch {
+		case p != nil:
+			c.Fail("off-panic", line, fmt.Sprint(p))
+			obs = "panic"
+		case strings.HasPrefix(obs, "err "):
+			c.Fail("off-error", line, obs)
+		case !equalInts(ys, want):
+			c.Fail("off-not-exact", line, "yielded "+joinInts(ys))
+		case !done:
+			c.Fail("off-no-stop", line, "Next still true after every item was yielded")
+		case after:
+			c.Fail("off-restart", line, "Next returned true again after it returned false")
+		case nreq > ceilDiv(n, minOf(limit, capv))+1+2:
+			c.Fail("off-too-many-requests", line, fmt.Sprintf("%d requests", nreq))
+		}
+		add(line, obs)
+	}
 	c.Res.Exhaustive = true
-	c.Res.Rule = fmt.Sprintf("messages: every (n, page size) with n ≤ %d, page size 1..n+1 enumerated (exhaustive grid), plus random histories up to %d items (strictly descending positive ids, gaps 1..5), exact multiples, page sizes n-1/n/n+1, constructor wishes full/slice/channel per request; scripted answers with unsorted/repeated ids; dialogs: grid n ≤ %d plus random lists with many date/top-message ties, server-side page caps below the requested limit; non-trivial = more items than one page; distinct = distinct input line", grid, maxN, dgrid)
+	c.Res.Rule = fmt.Sprintf("messages: every (n, page size) with n ≤ %d, page size 1..n+1 enumerated (exhaustive grid), plus random histories up to %d items (strictly descending positive ids, gaps 1..5), exact multiples, page sizes n-1/n/n+1, constructor wishes full/slice/channel per request; scripted answers with unsorted/repeated ids; dialogs: grid n ≤ %d plus random lists with many date/top-message ties, server-side page caps below the requested limit; offset-based iterators (blocked, photos, participants, featured) over 0..40 items; non-trivial = more items than one page; distinct = distinct input line", grid, maxN, dgrid)
 
 	outs, err := c.Drv.Batch(lines)
 	if err != nil {
@@ -733,4 +802,119 @@ func maxOf(a, b int) int {
 		return a
 	}
 	return b
+}
+
+// ---------------------------------------------------------------- offset-based iterators
+
+// offPage computes the answer of the mock server: items off+1 .. off+min(limit,cap) of 1..n, and whether
+// the complete-answer constructor is used.
+func offPage(n, off, limit, capv int, kinds string, i int) (ids []int, full bool) {
+	ps := minOf(limit, capv)
+	rem := n - off
+	if rem < 0 {
+		rem = 0
+	}
+	k := minOf(ps, rem)
+	for j := 0; j < k; j++ {
+		ids = append(ids, off+j+1)
+	}
+	full = i < len(kinds) && kinds[i] == 'f' && rem <= ps
+	return
+}
+
+func iterateOffset(which string, n, limit, capv int, kinds string, maxCalls int) (obs string, ys []int, done, after bool, nreq int, perr any) {
+	defer func() {
+		if r := recover(); r != nil {
+			perr = r
+		}
+	}()
+	ctx := context.Background()
+	var reqs []string
+	rec := func(off, lim int) int {
+		reqs = append(reqs, fmt.Sprintf("%d:%d", off, lim))
+		return len(reqs) - 1
+	}
+	var next func() bool
+	var value func() int
+	var errf func() error
+	switch which {
+	case "blocked":
+		it := blocked.NewIterator(blocked.QueryFunc(func(ctx context.Context, req blocked.Request) (tg.ContactsBlockedClass, error) {
+			i := rec(req.Offset, req.Limit)
+			ids, full := offPage(n, req.Offset, req.Limit, capv, kinds, i)
+			var l []tg.PeerBlocked
+			for _, id := range ids {
+				l = append(l, tg.PeerBlocked{PeerID: &tg.PeerUser{UserID: int64(id)}, Date: id})
+			}
+			if full {
+				return &tg.ContactsBlocked{Blocked: l}, nil
+			}
+			return &tg.ContactsBlockedSlice{Blocked: l, Count: n}, nil
+		}), limit)
+		next = func() bool { return it.Next(ctx) }
+		value = func() int { return it.Value().Contact.Date }
+		errf = it.Err
+	case "photos":
+		it := photos.NewIterator(photos.QueryFunc(func(ctx context.Context, req photos.Request) (tg.PhotosPhotosClass, error) {
+			i := rec(req.Offset, req.Limit)
+			ids, full := offPage(n, req.Offset, req.Limit, capv, kinds, i)
+			var l []tg.PhotoClass
+			for _, id := range ids {
+				l = append(l, &tg.Photo{ID: int64(id)})
+			}
+			if full {
+				return &tg.PhotosPhotos{Photos: l}, nil
+			}
+			return &tg.PhotosPhotosSlice{Photos: l, Count: n}, nil
+		}), limit)
+		next = func() bool { return it.Next(ctx) }
+		value = func() int { return int(it.Value().Photo.GetID()) }
+		errf = it.Err
+	case "participants":
+		it := participants.NewIterator(participants.QueryFunc(func(ctx context.Context, req participants.Request) (tg.ChannelsChannelParticipantsClass, error) {
+			i := rec(req.Offset, req.Limit)
+			ids, _ := offPage(n, req.Offset, req.Limit, capv, kinds, i)
+			var l []tg.ChannelParticipantClass
+			for _, id := range ids {
+				l = append(l, &tg.ChannelParticipant{UserID: int64(id)})
+			}
+			return &tg.ChannelsChannelParticipants{Participants: l, Count: n}, nil
+		}), limit)
+		next = func() bool { return it.Next(ctx) }
+		value = func() int { return int(it.Value().Participant.(*tg.ChannelParticipant).UserID) }
+		errf = it.Err
+	default:
+		it := featured.NewIterator(featured.QueryFunc(func(ctx context.Context, req featured.Request) (tg.MessagesFeaturedStickersClass, error) {
+			i := rec(req.Offset, req.Limit)
+			ids, _ := offPage(n, req.Offset, req.Limit, capv, kinds, i)
+			var l []tg.StickerSetCoveredClass
+			for _, id := range ids {
+				l = append(l, &tg.StickerSetCovered{Set: tg.StickerSet{ID: int64(id)}})
+			}
+			return &tg.MessagesFeaturedStickers{Sets: l, Count: n}, nil
+		}), limit)
+		next = func() bool { return it.Next(ctx) }
+		value = func() int { return int(it.Value().Sticker.GetSet().ID) }
+		errf = it.Err
+	}
+	for i := 0; i < maxCalls; i++ {
+		if !next() {
+			done = true
+			break
+		}
+		ys = append(ys, value())
+	}
+	n0 := len(reqs)
+	d := 0
+	if done {
+		d = 1
+		after = next() || next()
+	}
+	nreq = len(reqs)
+	if e := errf(); e != nil {
+		obs = "err " + e.Error()
+		return
+	}
+	obs = fmt.Sprintf("y=%s r=%s done=%d", joinInts(ys), orDash(strings.Join(reqs[:n0], ",")), d)
+	return
 }
